@@ -75,6 +75,8 @@ def build():
             v.field_types.update(ast.literal_eval(a['FIELD_TYPES']))
         if 'ORACLE_METHODS' in a:
             v.oracle_methods.update(ast.literal_eval(a['ORACLE_METHODS']))
+        if 'CLASS_INVARIANTS' in a:
+            v.class_invariants.update(ast.literal_eval(a['CLASS_INVARIANTS']))
         if 'ORACLES' in a:
             v.oracles.update(ast.literal_eval(a['ORACLES']))
     # A-classes: UNSET is the only instance of UnsetType
@@ -324,6 +326,42 @@ def relevant(ob: Dict[str, Any], pid: str) -> bool:
     return pid == 'all' or pid in ob['props']
 
 
+# native witness search: where the counter-model of a failed obligation is an abstract (framework) object that
+# cannot be replayed as is, a per-property script looks for a concrete input showing a violation on the real code.
+# Not part of the proof; only decides whether the VIOLATION line carries a reproduced input.
+WITNESS_SEARCH = {'C18': ('replayers/c18.py', ('werkzeug', 'flask', 'aiohttp'))}
+
+
+def witness_search(pid, violations):
+    if pid not in WITNESS_SEARCH or not violations:
+        return
+    import subprocess
+    script, keys = WITNESS_SEARCH[pid]
+    cache = {}
+    for f in violations:
+        rep = f.setdefault('replay', {})
+        if rep.get('status') == 'violation-reproduced':
+            continue
+        key = next((k for k in keys if f'.{k}:' in f['function']), None)
+        if key is None:
+            continue
+        if key not in cache:
+            env = dict(os.environ, PYTHONPATH=REPO)
+            try:
+                p = subprocess.run([sys.executable, os.path.join(HERE, script), key], capture_output=True, text=True,
+                                   timeout=300, env=env, cwd='/')
+                cache[key] = json.loads(p.stdout.strip().splitlines()[-1]) if p.stdout.strip() else \
+                    {'failing': [], 'error': p.stderr[-400:]}
+            except Exception as e:
+                cache[key] = {'failing': [], 'error': f'{type(e).__name__}: {e}'}
+        res = cache[key]
+        if res.get('failing'):
+            rep.update({'status': 'violation-reproduced', 'how': f'native witness search {script} {key}',
+                        'inputs': res['failing'][0], 'more': len(res['failing']) - 1})
+        else:
+            rep.setdefault('witness_search', f"{script} {key}: no concrete witness ({res.get('error')})")
+
+
 def report(pid: str, a, results: List[Dict[str, Any]], seed: int, wall: float, cts, standins=()) -> int:
     os.makedirs(os.path.join(HERE, 'replays'), exist_ok=True)
     os.makedirs(os.path.join(HERE, 'evidence'), exist_ok=True)
@@ -376,6 +414,7 @@ def report(pid: str, a, results: List[Dict[str, Any]], seed: int, wall: float, c
         errors.append('zero obligations generated')
     rc = 0
     lines = []
+    witness_search(pid, violations)
     for f in violations:
         h = hashlib.sha1((f['id'] + f['clause']).encode()).hexdigest()[:10]
         path = os.path.join(HERE, 'replays', f'{pid}-{h}.json')
